@@ -829,6 +829,163 @@ judge_leap60(int gps, int k, int binary, int replay)
 	return bad;
 }
 
+/* ---- ZONE60: the inserted second and its neighbours under civil zones ----
+ * A civil zone adds its offset to the label: the inserted second 23:59:60 UTC is HH:MM:60 there, distinct from
+ * the second after it; --zone UTC is the identity.  The offset itself is taken from the implementation's own
+ * conversion of 23:59:59 (zone correctness is C12's business); zones: UTC, one east, one west, one half-hour. */
+static const char *const z60_zones[] = {"UTC", "Europe/Berlin", "America/New_York", "Asia/Kolkata"};
+static const char *const z60_kind[] = {"utc", "east", "west", "half-hour"};
+#define NZ60	4
+
+static zif_t
+z60_zone(int zi)
+{
+	static zif_t z[NZ60];
+	if (z[zi] == NULL) {
+		z[zi] = zif_open(z60_zones[zi]);
+	}
+	return z[zi];
+}
+
+/* run `dconv OPT ZONE' on the texts (as arguments or as stdin lines); the output lines go to OUT[][64] */
+static int
+z60_run(int stdin_mode, const char *opt, const char *zone, char texts[][64], int n, char out[][64])
+{
+	char cmd[2048], fin[600] = "";
+	size_t k;
+	FILE *pp;
+	int got = 0;
+
+	k = (size_t)snprintf(cmd, sizeof(cmd), "'%s/src/dconv' %s %s", ex.tree ? ex.tree : ".", opt, zone);
+	if (stdin_mode) {
+		const char *rundir = getenv("VERIF_RUNDIR");
+		FILE *f;
+		snprintf(fin, sizeof(fin), "%s/c14z60.%d.in", rundir ? rundir : "/tmp", (int)getpid());
+		if ((f = fopen(fin, "w")) == NULL) {
+			return 0;
+		}
+		for (int i = 0; i < n; i++) {
+			fprintf(f, "%s\n", texts[i]);
+		}
+		fclose(f);
+		snprintf(cmd + k, sizeof(cmd) - k, " < '%s' 2>/dev/null", fin);
+	} else {
+		for (int i = 0; i < n; i++) {
+			k += (size_t)snprintf(cmd + k, sizeof(cmd) - k, " %s", texts[i]);
+		}
+		snprintf(cmd + k, sizeof(cmd) - k, " 2>/dev/null");
+	}
+	for (int i = 0; i < n; i++) {
+		out[i][0] = '\0';
+	}
+	if ((pp = popen(cmd, "r")) != NULL) {
+		while (got < n && fgets(out[got], 64, pp)) {
+			out[got][strcspn(out[got], "\n")] = '\0';
+			got++;
+		}
+		pclose(pp);
+	}
+	if (fin[0]) {
+		unlink(fin);
+	}
+	return got;
+}
+
+/* VIA: 0 library, 1 binary with arguments, 2 binary with stdin lines */
+static int
+judge_zone60(int zi, int k, int via, int replay)
+{
+	static struct dt_dt_s r;
+	zif_t z = z60_zone(zi);
+	struct dt_dt_s v;
+	char utc[6][64], loc[6][64], got[6][64], text[64], l59[96] = "", key[240], cas[64], cmd[256];
+	/* the six inputs: entry -2, -1 (23:59:59), the inserted second, entry, +1, +2 */
+	static const int delta[6] = {-2, -1, 0, 0, 1, 2};
+	static const int is60[6] = {0, 0, 1, 0, 0, 0};
+	int64_t t59 = lm[k].t - 1, lo59 = 0, off;
+	int rc, s60 = 0, bad = 0;
+	EX_CTR(c_trans, "transitions");
+	EX_CTR(c_eval, "evaluations");
+	EX_CTR(c_bind, "cli_binding_replays");
+	EX_CTR(c_skipz, "skipped:zone file not available, or its offset at the entry is not a whole number of minutes (the label of the inserted second has no HH:MM:60 form)");
+
+	if (z == NULL || !inst_value(H_YMD, (struct inst_s){t59, 0}, &v, text, sizeof(text))) {
+		++*c_skipz;
+		return 0;
+	}
+	EX_GUARD_BEGIN(rc);
+	r = dtz_enrichz(v, z);
+	dt_strfdt(l59, sizeof(l59), "%FT%T", r);
+	EX_GUARD_END;
+	if (rc || !dec_datetime(H_YMD, l59, &lo59, &s60) || s60 || (lo59 - t59) % 60) {
+		++*c_skipz;
+		return 0;
+	}
+	off = lo59 - t59;
+	for (int i = 0; i < 6; i++) {
+		struct inst_s x = {lm[k].t + delta[i], is60[i]};
+		inst_text(H_YMD, x, utc[i], sizeof(utc[i]));
+		if (is60[i]) {
+			size_t l;
+			held_text(H_YMD, RD_OF_UNIX(t59 + off), (int)((t59 + off) % 86400), loc[i], sizeof(loc[i]));
+			l = strlen(loc[i]);
+			loc[i][l - 2] = '6', loc[i][l - 1] = '0';
+		} else {
+			held_text(H_YMD, RD_OF_UNIX(x.u + off), (int)((x.u + off) % 86400), loc[i], sizeof(loc[i]));
+		}
+	}
+	for (int dir = 0; dir < 2; dir++) {
+		/* dir 0: --zone Z on the UTC labels; dir 1: --from-zone Z on the local labels */
+		char (*in)[64] = dir ? loc : utc, (*want)[64] = dir ? utc : loc;
+		if (via == 0) {
+			for (int i = 0; i < 6; i++) {
+				struct dt_dt_s w = dt_strpdt(in[i], NULL, NULL);
+				got[i][0] = '\0';
+				if (dt_unk_p(w)) {
+					continue;
+				}
+				EX_GUARD_BEGIN(rc);
+				r = dir ? dtz_forgetz(w, z) : dtz_enrichz(w, z);
+				if (dir) {
+					r.zdiff = 0U;
+					r.neg = 0U;
+				}
+				dt_strfdt(got[i], sizeof(got[i]), "%FT%T", r);
+				EX_GUARD_END;
+				*c_eval += 2;
+			}
+		} else {
+			z60_run(via == 2, dir ? "--from-zone" : "--zone", z60_zones[zi], in, 6, got);
+			++*c_bind;
+		}
+		for (int i = 0; i < 6; i++) {
+			++*c_trans;
+			ex_outcome(ex_hash(got[i], strlen(got[i])));
+			if (replay) {
+				printf("  dconv %s %s %s (%s) -> '%s', expected '%s'\n", dir ? "--from-zone" : "--zone", z60_zones[zi], in[i],
+				       via == 0 ? "library" : via == 1 ? "argument" : "stdin", got[i], want[i]);
+			}
+			if (strcmp(got[i], want[i])) {
+				snprintf(key, sizeof(key), "zone60 %s zone-kind=%s via=%s input=%s: %s", dir ? "from-zone" : "to-zone", z60_kind[zi],
+					 via == 0 ? "library" : via == 1 ? "argument" : "stdin", is60[i] ? "inserted-second" : "neighbour",
+					 !got[i][0] ? "no output" : is60[i] && !strcmp(got[i], want[3]) ? "becomes the following second" : "other label");
+				snprintf(cas, sizeof(cas), "Z60 %d %d %d", zi, k, via);
+				snprintf(cmd, sizeof(cmd), "%sdconv %s %s%s%s", via == 2 ? "echo " : "", via == 2 ? in[i] : (dir ? "--from-zone" : "--zone"),
+					 via == 2 ? "| dconv " : "", via == 2 ? (dir ? "--from-zone " : "--zone ") : z60_zones[zi], via == 2 ? z60_zones[zi] : "");
+				if (via != 2) {
+					snprintf(cmd, sizeof(cmd), "dconv %s %s %s", dir ? "--from-zone" : "--zone", z60_zones[zi], in[i]);
+				} else {
+					snprintf(cmd, sizeof(cmd), "echo %s | dconv %s %s", in[i], dir ? "--from-zone" : "--zone", z60_zones[zi]);
+				}
+				ex_viol(key, (double)lm[k].t, cas, cmd, "%s gives '%s'; the zone is %+lld s there, so the label is '%s'", cmd, got[i],
+					(long long)off, want[i]);
+				bad++;
+			}
+		}
+	}
+	return bad;
+}
+
 /* TAI label -> UTC -> TAI label must be the identity (dconv --from-zone TAI --zone TAI X) */
 static int
 judge_tairt(int gps, int64_t tai, int replay)
@@ -1047,6 +1204,10 @@ main(int argc, char *argv[])
 		if (!strncmp(ex.cas, "LEAP60 ", 7) && sscanf(ex.cas + 7, "%d %d %d", a, a + 1, a + 2) == 3 && a[1] >= 1 && a[1] < nlm) {
 			return ex_replay_result(judge_leap60(a[0] != 0, a[1], a[2] != 0, 1), "23:59:60 into zone %s", a[0] ? "GPS" : "TAI");
 		}
+		if (!strncmp(ex.cas, "Z60 ", 4) && sscanf(ex.cas + 4, "%d %d %d", a, a + 1, a + 2) == 3 && a[0] >= 0 && a[0] < NZ60 &&
+		    a[1] >= 1 && a[1] < nlm && a[2] >= 0 && a[2] <= 2) {
+			return ex_replay_result(judge_zone60(a[0], a[1], a[2], 1), "inserted second under zone %s", z60_zones[a[0]]);
+		}
 		if (!strncmp(ex.cas, "TAIRT ", 6) && sscanf(ex.cas + 6, "%d %lld", a, &t) == 2) {
 			return ex_replay_result(judge_tairt(a[0] != 0, t, 1), "label round trip");
 		}
@@ -1064,7 +1225,10 @@ main(int argc, char *argv[])
 		"LAND: the additions from every instant of I that land -3..+3 s around every inserted second (so spans crossing none, one, "
 		"two or more insertions with every landing offset), same oracle, own keys. LEAP60: the inserted second 23:59:60 as input of "
 		"--zone TAI|GPS carries the offset in force before the step; a TAI/GPS label read with --from-zone and printed with --zone is itself. "
-		"dt_dtconv(DT_SEXYTAI) - Unix seconds = model offset. "
+		"dt_dtconv(DT_SEXYTAI) - Unix seconds = model offset. ZONE60: under a civil zone (UTC, Europe/Berlin, America/New_York, Asia/Kolkata) the "
+		"inserted second 23:59:60 UTC has the label HH:MM:60 of the zone, distinct from the second after it, --zone UTC is the identity, and "
+		"--from-zone reads those labels back; the zone's offset is the implementation's own conversion of 23:59:59; 27 entries x {-2,-1,:60,0,+1,+2} s "
+		"x {--zone, --from-zone} x {library, dconv with arguments, dconv with stdin lines}. "
 		"ADD: the printed result of dt_dtadd with a +Nrs duration (parsed by dt_io_strpdtdur) decodes to tai(start) + N, second 60 only on "
 		"inserted seconds. Before the first entry (1970-01-01..1971-12-31) the first entry's TAI-UTC (10 s) holds, as the tree answers today: "
 		"the list's first line only states the value in force from 1972-01-01 and lists no insertion on 1971-12-31, so crossing the first entry "
@@ -1168,6 +1332,26 @@ main(int argc, char *argv[])
 			}
 		}
 		++*c_traces;
+	}
+	/* ZONE60: civil zones x every inserted second and its neighbours; slice = (zone, entry).  The binaries run with the
+	 * timer off (an interrupted read() would cut a pipe short); the library path is guarded by its own re-arm */
+	for (int zi = 0; zi < NZ60; zi++) {
+		for (int k = 1; k < nlm; k++, slice++) {
+			if (!ex_mine(slice) || ex_expired()) {
+				continue;
+			}
+			judge_zone60(zi, k, 0, 0);
+			if (ex.thorough || k >= nlm - 3) {
+				struct itimerval zt = {{0, 0}, {0, 0}}, on;
+				getitimer(ITIMER_REAL, &on);
+				setitimer(ITIMER_REAL, &zt, NULL);
+				judge_zone60(zi, k, 1, 0);
+				judge_zone60(zi, k, 2, 0);
+				on.it_value = on.it_interval;
+				setitimer(ITIMER_REAL, &on, NULL);
+			}
+			++*c_traces;
+		}
 	}
 	/* LAND: every start of I x every inserted second x landing offsets -3..+3; slice = (rep, start) */
 	for (int r = 0; r < nrep; r++) {
